@@ -60,7 +60,7 @@ def h_kernel(cxx):
         ret, d = interp_smt.apply(cxx, [x.t for x in u], [x.t for x in v])
         wp.defined.append(IMP(wp.guard, d))
         wp.kernel_defined[ret] = d
-        wp.kernel_calls.append((cxx, wp.guard, d))
+        wp.kernel_calls.append({'cxx': cxx, 'guard': wp.guard, 'defined': d, 'ret': ret})
         return V(ret, 'Real', 'double')
     return h
 
@@ -90,6 +90,8 @@ def dcstep():
                 (r'^isfinite\|', h_isfinite), (r'^fabs\|', h_fabs),
                 (r'^min\|const double &', step_smt.h_minmax('rmin')), (r'^max\|const double &', step_smt.h_minmax('rmax'))] + wp.calls
     wp.pointers = set()
+    wp.params_seen = {}
+    wp.decl_hooks = (step_smt.decl_hook,) + tuple(wp.decl_hooks)       # `const lsearch_step_t x{t, f, g};` locals
     wp.kernel_defined, wp.kernel_calls = {}, []
     keys = []
     for key, p in wp.bind_params(fn):
@@ -108,7 +110,7 @@ def dcstep():
     wp.run(fn, src)
     if wp.returns != 1 or wp.obligations:
         raise Unsupported(f'mt/dcstep: {wp.returns} return paths / {len(wp.obligations)} unexpected obligations (the contract is written for straight-line control flow)')
-    _DC.update({'out': {k: show(simplify(parse(final[k]))) for k in ALL}, 'defined': show(simplify(parse(AND(*wp.defined)))), 'calls': wp.kernel_calls, 'src': src,
+    _DC.update({'out': {k: show(simplify(parse(final[k]))) for k in ALL}, 'defined': show(simplify(parse(AND(*wp.defined)))), 'calls': wp.kernel_calls, 'src': src, 'raw': dict(final),
                 'fn': {'c_name': 'mt/dcstep', 'cxx': 'dcstep', 'file': src, 'line': fn.get('loc', {}).get('line'), 'sha': astload.file_hash(src)}})
     return _DC
 
@@ -141,7 +143,8 @@ def reference():
     c1 = f'(+ stx (* (/ (+ (- {g1} dx) {theta}) {q1}) (- stp stx)))'
     qd = '(+ (/ (- fx fp) (- stp stx)) dx)'
     s1 = f'(+ stx (* (/ (/ dx {qd}) 2.0) (- stp stx)))'
-    R[1] = {'stpf': f'(ite (< (rabs (- {c1} stx)) (rabs (- {s1} stx))) {c1} (+ {c1} (/ (- {s1} {c1}) 2.0)))',
+    comb1 = lambda c, s_: f'(ite (< (rabs (- {c} stx)) (rabs (- {s_} stx))) {c} (+ {c} (/ (- {s_} {c}) 2.0)))'
+    R[1] = {'stpf': comb1(c1, s1), 'pieces': {'cubic': c1, 'quadratic': s1}, 'combine': lambda P: comb1(P['cubic'], P['quadratic']),
             'defined': f'(and (not (= stp stx)) (>= {disc} 0.0) (not (= {q1} 0.0)) (not (= {qd} 0.0)))'}
     # case 2 / 3: stpc = stp + r*(stx - stp) with p = (gamma - dp) + theta, gamma < 0 iff stp > stx; secant stpq = stp + dp/(dp - dx)*(stx - stp)
     g2 = f'(ite (> stp stx) (- (nv_sqrt {disc})) (nv_sqrt {disc}))'
@@ -149,12 +152,13 @@ def reference():
     r2 = f'(/ (+ (- {g2} dp) {theta}) {q2})'
     c2 = f'(+ stp (* {r2} (- stx stp)))'
     s2 = '(+ stp (* (/ dp (- dp dx)) (- stx stp)))'
-    R[2] = {'stpf': f'(ite (> (rabs (- {c2} stp)) (rabs (- {s2} stp))) {c2} {s2})',
+    comb2 = lambda c, s_: f'(ite (> (rabs (- {c} stp)) (rabs (- {s_} stp))) {c} {s_})'
+    R[2] = {'stpf': comb2(c2, s2), 'pieces': {'cubic': c2, 'secant': s2}, 'combine': lambda P: comb2(P['cubic'], P['secant']),
             'defined': f'(and (not (= stp stx)) (>= {disc} 0.0) (not (= {q2} 0.0)) (not (= dp dx)))'}
     # case 3: q = (gamma + (dx - dp)) + gamma; cubic step only if r < 0 and gamma != 0
     bound = '(ite (> stp stx) stpmax stpmin)'
 
-    def case3(use_cubic):
+    def case3(use_cubic, c2=c2, s2=s2):
         c3 = f'(ite {use_cubic} {c2} {bound})'
         near = f'(ite (< (rabs (- {c3} stp)) (rabs (- {s2} stp))) {c3} {s2})'
         far = f'(ite (> (rabs (- {c3} stp)) (rabs (- {s2} stp))) {c3} {s2})'
@@ -162,7 +166,8 @@ def reference():
         br = f'(ite (> stp stx) (rmin {guard} {near}) (rmax {guard} {near}))'
         nb = f'(rmax stpmin (rmin stpmax {far}))'
         return f'(ite brackt {br} {nb})'
-    R[3] = {'stpf_pos': case3(f'(< {r2} 0.0)'), 'stpf_neg': case3('false'), 'disc': disc,
+    R[3] = {'stpf_pos': case3(f'(< {r2} 0.0)'), 'stpf_neg': case3('false'), 'disc': disc, 'pieces': {'cubic': c2, 'secant': s2}, 'r': r2,
+            'combine': lambda P, use: case3(use, P['cubic'], P['secant']),
             'defined_pos': f'(and (not (= stp stx)) (> {disc} 0.0) (not (= {q2} 0.0)) (not (= dp dx)))',
             'defined_neg': f'(and (not (= stp stx)) (< {disc} 0.0) (not (= dp dx)))',
             'guard': '(+ stp (* delta (- sty stp)))'}
@@ -172,14 +177,14 @@ def reference():
     g4 = f'(ite (> stp sty) (- (nv_sqrt {d4})) (nv_sqrt {d4}))'
     q4 = f'(+ (- {g4} dp) {g4} dy)'
     c4 = f'(+ stp (* (/ (+ (- {g4} dp) {th4}) {q4}) (- sty stp)))'
-    R[4] = {'stpf': f'(ite brackt {c4} {bound})', 'defined': f'(=> brackt (and (not (= sty stp)) (>= {d4} 0.0) (not (= {q4} 0.0))))'}
+    R[4] = {'stpf': f'(ite brackt {c4} {bound})', 'pieces': {'cubic': c4}, 'combine': lambda P: f'(ite brackt {P["cubic"]} {bound})', 'defined': f'(=> brackt (and (not (= sty stp)) (>= {d4} 0.0) (not (= {q4} 0.0))))'}
     return R
 
 
 DECLS = [(k, 'Bool' if k == 'brackt' else 'Real') for k in ALL]
 
 
-def dcstep_vcs():
+def dcstep_vcs(tier='quick'):
     dc = dcstep()
     out_, src = dc['out'], dc['src']
     R = reference()
@@ -187,21 +192,74 @@ def dcstep_vcs():
     base = ['(not (= dx 0.0))']
     vcs = []
 
-    def case_defined(k, hyps):
-        # the kernel calls the code makes in this case are defined wherever the reference's quantities are
-        return AND(*[IMP(g, d) for _, g, d in dc['calls']])
-    for k, label in ((1, 'higher function value: cubic / quadratic'), (2, 'lower value, derivatives of opposite sign: cubic / secant'),
-                     (4, 'lower value, same sign, |dp| >= |dx|: cubic through (stp, sty) when bracketed, else stpmax / stpmin')):
-        hy = base + [R['case'][k], R[k]['defined']]
-        vcs.append(mkvc(f'mt/dcstep/case{k}_step: case {k} ({label}): the new step is the reference\'s', DECLS, hy, f'(= {out_["stp"]} {R[k]["stpf"]})', about, src))
-        vcs.append(mkvc(f'mt/dcstep/case{k}_defined: every division / sqrt the code executes is defined wherever the reference\'s are', DECLS, hy, dc['defined'], about, src))
-    hy = base + [R['case'][3], R[3]['defined_pos']]
-    vcs.append(mkvc('mt/dcstep/case3_step: case 3 (lower value, same sign, |dp| < |dx|), discriminant > 0: the new step is the reference\'s (cubic step iff r < 0, closer / farther of cubic and secant, safeguard, clamp)',
-                    DECLS, hy, f'(= {out_["stp"]} {R[3]["stpf_pos"]})', about, src))
-    vcs.append(mkvc('mt/dcstep/case3_defined: every division / sqrt the code executes is defined wherever the reference\'s are', DECLS, hy, dc['defined'], about, src))
-    hy = base + [R['case'][3], R[3]['defined_neg']]
-    vcs.append(mkvc('mt/dcstep/case3_negative_discriminant: (MINPACK: gamma = 0; code: non-finite cubic step): both take stpmax / stpmin for the cubic step',
-                    DECLS, hy, f'(= {out_["stp"]} {R[3]["stpf_neg"]})', about, src))
+    # ---- the new step, case by case, as a CUT (the monolithic equalities `code == reference` take 2-50 s in nlsat and time out on a
+    # loaded machine; they are kept for the thorough tier):
+    #  (i)  kernel lemmas: at every call site, under the case hypotheses and the call's path condition, the inlined kernel term equals the
+    #       reference's piece (stpc / stpq of that case) and its divisions / sqrt are defined;
+    #  (ii) combination: with every kernel result replaced TEXTUALLY by an opaque constant K_i (and its definedness by a boolean D_i), the new
+    #       step is the reference's choice rule applied to arbitrary pieces P, for all K, D, P with `path condition_i => K_i = P and D_i`.
+    # (i) discharges the antecedent of (ii) instantiated at K_i := the kernel term, P := the reference's piece: code == reference.
+    calls = dc['calls']
+    repl = {}
+    byret = {}
+    for i, c in enumerate(calls):       # calls with the same printed term (same kernel, same arguments) are the same value: one constant
+        j = byret.setdefault(c['ret'], i)
+        c['K'], c['D'] = f'K{j}_{c["cxx"]}', f'D{j}_{c["cxx"]}'
+        repl[parse(c['ret'])] = c['K']
+    for c in calls:
+        repl.setdefault(parse(c['defined']), c['D'])
+
+    def opaque(t):
+        def go(x):
+            if x in repl:
+                return repl[x]
+            return x if isinstance(x, str) else tuple(go(y) for y in x)
+        return show(simplify(go(parse(t))))
+    stp_K = opaque(dc['raw']['stp'])
+    kdecl = DECLS + sorted({(c['K'], 'Real') for c in calls}) + sorted({(c['D'], 'Bool') for c in calls}) + [('P_cubic', 'Real'), ('P_quadratic', 'Real'), ('P_secant', 'Real'), ('U', 'Bool')]
+    PC = {'cubic': 'P_cubic', 'quadratic': 'P_quadratic', 'secant': 'P_secant'}
+    labels = {1: 'higher function value: cubic / quadratic', 2: 'lower value, derivatives of opposite sign: cubic / secant',
+              3: 'lower value, same sign, |dp| < |dx|: cubic step if beyond stp else stpmax / stpmin; closer one + safeguard if bracketed, farther one clamped otherwise',
+              4: 'lower value, same sign, |dp| >= |dx|: cubic through (stp, sty) when bracketed, else stpmax / stpmin'}
+    for k in (1, 2, 3, 4):
+        full = base + [R['case'][k], R[k]['defined_pos' if k == 3 else 'defined']]
+        for c in calls:
+            if c['cxx'] in R[k]['pieces']:
+                vcs.append(mkvc(f'mt/dcstep/case{k}_kernel_{c["cxx"]}: the {c["cxx"]} step computed at the call site {c["K"]} is the reference\'s '
+                                f'{"stpc" if c["cxx"] == "cubic" else "stpq"} of case {k} and its divisions / sqrt are defined wherever the reference\'s are',
+                                DECLS, full + [c['guard']], f'(and {c["defined"]} (= {c["ret"]} {R[k]["pieces"][c["cxx"]]}))', about, src))
+        link = [IMP(opaque(c['guard']), f'(and (= {c["K"]} {PC[c["cxx"]]}) {c["D"]})') for c in calls if c['cxx'] in R[k]['pieces']]
+        if k == 3:
+            # MINPACK: cubic step iff r < 0 (and gamma != 0); r < 0 <=> the cubic step lies beyond stp as seen from stx
+            vcs.append(mkvc('mt/dcstep/case3_beyond: r < 0 (reference) <=> (stp - stx)*(stpc - stp) > 0 (code) for the reference\'s stpc = stp + r*(stx - stp)', DECLS, full,
+                            f'(= (< {R[3]["r"]} 0.0) (> (* (- stp stx) (- {R[3]["pieces"]["cubic"]} stp)) 0.0))', about, src))
+            link.append('(= U (> (* (- stp stx) (- P_cubic stp)) 0.0))')
+            ref = R[3]['combine'](PC, 'U')
+        else:
+            ref = R[k]['combine'](PC)
+        vcs.append(mkvc(f'mt/dcstep/case{k}_step: case {k} ({labels[k]}): the new step is the reference\'s choice rule applied to the kernel results',
+                        kdecl, base + [R['case'][k]] + link, f'(= {stp_K} {ref})', about, src))
+        vcs.append(mkvc(f'mt/dcstep/case{k}_defined: every division / sqrt the code executes is defined wherever the reference\'s are', DECLS, full, dc['defined'], about, src))
+    # case 3 with a negative discriminant: the code's cubic step is undefined (NaN: not finite), MINPACK's gamma is 0: both take the bound
+    neg = base + [R['case'][3], R[3]['defined_neg']]
+    for c in calls:
+        if c['cxx'] == 'cubic':
+            vcs.append(mkvc(f'mt/dcstep/case3_negative_discriminant_kernel: the cubic step at the call site {c["K"]} is undefined (sqrt of a negative number: NaN, not finite)', DECLS,
+                            neg + [c['guard']], NOT(c['defined']), about, src))
+    link = [IMP(opaque(c['guard']), f'(and (= {c["K"]} P_secant) {c["D"]})' if c['cxx'] == 'secant' else NOT(c['D'])) for c in calls if c['cxx'] in ('cubic', 'secant')]
+    vcs.append(mkvc('mt/dcstep/case3_negative_discriminant: (MINPACK: gamma = 0; code: non-finite cubic step): both take stpmax / stpmin for the cubic step', kdecl,
+                    base + [R['case'][3]] + link, f'(= {stp_K} {R[3]["combine"](PC, "false")})', about, src))
+    for c in calls:
+        if c['cxx'] == 'secant':
+            vcs.append(mkvc(f'mt/dcstep/case3_negative_discriminant_secant: the secant step at the call site {c["K"]} is the reference\'s stpq', DECLS, neg + [c['guard']],
+                            f'(and {c["defined"]} (= {c["ret"]} {R[3]["pieces"]["secant"]}))', about, src))
+    if tier == 'thorough':
+        for k in (1, 2, 4):
+            vcs.append(mkvc(f'mt/dcstep/case{k}_step_monolithic: the new step (kernels inlined) equals the reference\'s, in one query', DECLS, base + [R['case'][k], R[k]['defined']],
+                            f'(= {out_["stp"]} {R[k]["stpf"]})', about, src, timeout=240))
+        vcs.append(mkvc('mt/dcstep/case3_step_monolithic: discriminant > 0: the new step (kernels inlined) equals the reference\'s, in one query', DECLS, base + [R['case'][3], R[3]['defined_pos']],
+                        f'(= {out_["stp"]} {R[3]["stpf_pos"]})', about, src, timeout=240))
+        vcs.append(mkvc('mt/dcstep/case3_negative_discriminant_monolithic: the new step (kernels inlined) equals the reference\'s, in one query', DECLS, neg, f'(= {out_["stp"]} {R[3]["stpf_neg"]})', about, src, timeout=240))
     hy = base + [R['case'][3], f'(= {R[3]["disc"]} 0.0)', '(not (= stp stx))', '(not (= dp dx))']
     vcs.append(mkvc('mt/dcstep/case3_zero_discriminant_deviation: (witness expected): the code keeps the cubic step where MINPACK falls back to stpmax / stpmin',
                     DECLS, hy + [f'(not (= {out_["stp"]} {R[3]["stpf_neg"]}))'], None, 'documented deviation from MINPACK-2', src, expect='sat'))
@@ -400,8 +458,8 @@ def build_do_get():
                        calls=[(r'^dcstep\|', h_dcstep_obs), (r'^stpmax\|', adv_smt.h_stpmax)], members=[(r'^stpmax\|', adv_smt.h_stpmax), (r'^update\|.*lsearchk', h_update_obs)])
 
 
-def build():
-    vcs = dcstep_vcs() + convexq_vcs()
+def build(tier='quick'):
+    vcs = dcstep_vcs(tier) + convexq_vcs()
     fns = [dcstep()['fn']]
     r = build_do_get()
     vcs += r[0]
@@ -416,8 +474,8 @@ if __name__ == '__main__':
         for k, v in dc['out'].items():
             print(k, '=', v[:3000], '\n')
         print('defined =', dc['defined'][:3000])
-    only = [a for a in sys.argv[1:] if a != '-v']
-    for v in build()[0]:
+    only = [a for a in sys.argv[1:] if a not in ('-v', '--thorough')]
+    for v in build('thorough' if '--thorough' in sys.argv else 'quick')[0]:
         if not only or only[0] in v.name:
             v.timeout = 20
             ob = v.verify()
